@@ -117,6 +117,16 @@ def H6b():
     )
 
 
+def H8():
+    """two producers, each read by two consumers with crossed windows: whichever reader is visited last when the ring
+    sizes are collected, one producer's demanding reader is not the last one"""
+    return spec(
+        {"p": node(16, 1), "q": node(16, 1), "a": node(4, 2), "b": node(4, 2)},
+        [edge("p", "a", window=3, comm=1), edge("p", "b", window=1, comm=1), edge("q", "a", window=1, comm=1), edge("q", "b", window=3, comm=1), edge("a", "b", window=1, comm=1)],
+        "b",
+    )
+
+
 def H7():
     """rate ratio 16:1 -> more than ten vertices (slots) of one kind per partition"""
     return spec({"a": node(64, 0, script=()), "b": node(4, 2)}, [edge("a", "b", window=3, comm=0), edge("b", "a", skip=True, comm=1)], "b")
